@@ -40,11 +40,15 @@ MaxPrio(prio) == LET A == Active(prio) IN IF A = {} THEN 0 ELSE CHOOSE p \in {pr
 WaitBound(m, prio, pert, mx, lo) ==
   LET A == Active(prio) IN
   SumSeq([k \in 1..Len(prio) |-> IF k \in A THEN CeilDiv(mx[m], lo[k]) + 1 ELSE 0], Len(prio)) + Cardinality(A) * (1 + pert)
-(* (ii) proportionality on a perturbation-free stretch: weighted counts stay together.  hi = the       *)
-(*      largest priority observed so far in the run (>= the current maximum): a priority lowered from   *)
-(*      hi leaves a message up to hi virtual ticks away from the others; TLC refuted the first version  *)
-(*      of this bound, which used the current maximum (setprio 7 -> 3, see MC_Poll_hi.cfg).             *)
-PropBound(prio, hi) == 2 * hi + Cardinality(Active(prio))
+(* (ii) proportionality on a perturbation-free stretch: weighted counts stay together.  On a stretch    *)
+(*      the weighted count of m is the advance of its virtual time, so two weighted counts differ by    *)
+(*      at most (spread of the virtual times at the start) + (spread at the end).  hi = the largest     *)
+(*      priority observed so far in the run: a perturbation can leave a message up to hi behind or hi   *)
+(*      ahead of the virtual clock (start spread <= 2 hi), arg-min selection keeps the end spread       *)
+(*      <= hi.  TLC refuted two earlier versions of this constant on the design: 2*max(current          *)
+(*      priorities)+N (setprio 7 -> 3) and 2*hi+N (priority 7, then used by a condition => 5);          *)
+(*      see MC_Poll_hi.cfg.                                                                              *)
+PropBound(prio, hi) == 3 * hi + Cardinality(Active(prio))
 
 (* monitor state.  K = number of perturbations (since m's last selection) up to which m's wait is     *)
 (* judged; beyond it m is not judged until it is selected again (keeps the monitor finite, sound).    *)
